@@ -74,7 +74,112 @@ func (e cenv) src(s *Source) (*big.Int, error) {
 		e[s] = v
 		return v, nil
 	}
+	if seed, ok := e[seedSrc]; ok {
+		// sampling mode: every free input gets a reproducible pseudo-random value
+		h := uint64(seed.Int64())*0x9E3779B97F4A7C15 + uint64(s.id)*0xBF58476D1CE4E5B9
+		h ^= h >> 31
+		h *= 0x94D049BB133111EB
+		h ^= h >> 29
+		v := new(big.Int).SetUint64(h)
+		if s.Width > 64 {
+			v.Lsh(v, uint(s.Width-64)).Or(v, new(big.Int).SetUint64(h*0x2545F4914F6CDD1D))
+		}
+		v.And(v, mask(s.Width))
+		e[s] = v
+		return v, nil
+	}
 	return nil, fmt.Errorf("no value for source %s", s.Name)
+}
+
+// seedSrc, when present in an environment, switches it to sampling mode.
+var seedSrc = &Source{id: -1, Name: "<seed>"}
+
+// setField drives the symbolic bits of a field (MSB first, each a single bit
+// of an input source) to the value v in env.
+func setField(e cenv, bits []Bit, v uint64) {
+	for i, b := range bits {
+		if b.top || len(b.atoms) != 1 || b.c {
+			continue
+		}
+		a := U.atoms[b.atoms[0]]
+		if a.kind != aSrc || a.src.Term != nil || a.src.Def != nil {
+			continue
+		}
+		cur, ok := e[a.src]
+		if !ok {
+			cur, _ = e.src(a.src)
+		}
+		n := new(big.Int).Set(cur)
+		n.SetBit(n, a.bit, uint(v>>uint(len(bits)-1-i)&1))
+		e[a.src] = n
+	}
+}
+
+// boundaryValues of a w-bit unsigned field.
+func boundaryValues(w int) []uint64 {
+	m := uint64(1)<<uint(w) - 1
+	if w >= 64 {
+		m = ^uint64(0)
+	}
+	vs := []uint64{0, 1, 2, m, m - 1, m >> 1, m>>1 + 1}
+	if w > 33 {
+		vs = append(vs, 1<<33-1, 1<<33, 1<<33+1)
+	}
+	if w >= 33 {
+		vs = append(vs, 1<<32-1, 1<<32, 1<<32+1)
+	}
+	return vs
+}
+
+// sampleEnvs builds environments in which the given fields run over all
+// combinations of their boundary values, plus extra purely random ones.
+func sampleEnvs(fields [][]Bit, extra int) []cenv {
+	var out []cenv
+	seed := int64(1)
+	var rec func(i int, e cenv)
+	rec = func(i int, e cenv) {
+		if i == len(fields) {
+			out = append(out, e)
+			return
+		}
+		for _, v := range boundaryValues(len(fields[i])) {
+			ne := cenv{}
+			for k, x := range e {
+				ne[k] = x
+			}
+			seed++
+			ne[seedSrc] = big.NewInt(seed)
+			setField(ne, fields[i], v)
+			rec(i+1, ne)
+		}
+	}
+	if len(fields) > 0 && len(fields) <= 3 {
+		rec(0, cenv{seedSrc: big.NewInt(seed)})
+	}
+	for k := 0; k < extra; k++ {
+		seed++
+		out = append(out, cenv{seedSrc: big.NewInt(seed)})
+	}
+	return out
+}
+
+// sampledSame evaluates both vectors in every environment.
+func sampledSame(got, want *BV, envs []cenv) (bool, string) {
+	for _, e := range envs {
+		ce := cenv{}
+		for k, v := range e {
+			ce[k] = v
+		}
+		a, err1 := ce.bv(got)
+		b, err2 := ce.bv(want)
+		if err1 != nil || err2 != nil {
+			return false, fmt.Sprintf("not evaluable (%v %v)", err1, err2)
+		}
+		if a.Cmp(b) != 0 {
+			return false, fmt.Sprintf("sample gives %#x, expected %#x", a, b)
+		}
+	}
+	return true, ""
 }
 
 func mask(w int) *big.Int {
